@@ -81,7 +81,13 @@ fn mk_or(parts: Vec<String>) -> String {
 }
 
 fn num_digits(n: i64) -> usize {
-    n.abs().to_string().len()
+    n.unsigned_abs().to_string().len()
+}
+
+/// Negate an integer bound; bounds saturate at i64::MIN, whose negation does not exist.
+fn neg_bound(n: i64) -> Result<i64> {
+    n.checked_neg()
+        .ok_or_else(|| anyhow!("Integer bound {} is out of the supported range", n))
 }
 
 pub fn rx_int_range(left: Option<i64>, right: Option<i64>) -> Result<String> {
@@ -111,7 +117,7 @@ pub fn rx_int_range(left: Option<i64>, right: Option<i64>) -> Result<String> {
                     rx_int_range(None, Some(-1))?,
                 ]))
             } else {
-                Ok(format!("-{}", rx_int_range(Some(-right), None)?))
+                Ok(format!("-{}", rx_int_range(Some(neg_bound(right)?), None)?))
             }
         }
         (Some(left), Some(right)) => {
@@ -124,11 +130,14 @@ pub fn rx_int_range(left: Option<i64>, right: Option<i64>) -> Result<String> {
             }
             if left < 0 {
                 if right < 0 {
-                    Ok(format!("(-{})", rx_int_range(Some(-right), Some(-left))?))
+                    Ok(format!(
+                        "(-{})",
+                        rx_int_range(Some(neg_bound(right)?), Some(neg_bound(left)?))?
+                    ))
                 } else {
                     Ok(format!(
                         "(-{}|{})",
-                        rx_int_range(Some(0), Some(-left))?,
+                        rx_int_range(Some(0), Some(neg_bound(left)?))?,
                         rx_int_range(Some(0), Some(right))?
                     ))
                 }
